@@ -18,7 +18,7 @@ class C05(LBCheck):
   ID = 'C05'
   FOCUS = ('membership:',)
   RULE = ('same world as C03 with a notification-heavy profile: scripted server-set provider whose '
-          'GetServers() may take virtual time / fail once, endpoints are the library\'s Endpoint objects or (a fifth of the cases) plain named tuples, notifications (joins, duplicate joins, leaves, '
+          'GetServers() may take virtual time / fail once / name a member twice, endpoints are the library\'s Endpoint objects or (a fifth of the cases) plain named tuples, notifications (joins, duplicate joins, leaves, '
           'leaves of unknown members, re-joins) delivered serially before, during and after loading, '
           'interleaved with traffic and failing channels (the Close() of an idle departing member\'s channel sometimes reports an error, which the provider logs and swallows). At every quiescent point with no notification '
           'pending: heap endpoints U aperture idle endpoints == truth set, disjoint, no duplicates; at the end (heap '
@@ -27,7 +27,7 @@ class C05(LBCheck):
           'with joins and leaves under traffic and faults) and compares at final quiescence. '
           'non-trivial = a join or leave was delivered; distinct as C03')
   REQUIRED_CLASSES = ('heap', 'aperture', 'join-duplicate', 'leave-unknown', 'rejoin', 'notify-during-loading',
-                      'rejoin-while-draining', 'removal', 'init-retry', 'saturation-probe', 'full-stack', 'tuple-endpoints', 'close-raises-on-leave')
+                      'rejoin-while-draining', 'removal', 'init-retry', 'saturation-probe', 'full-stack', 'tuple-endpoints', 'close-raises-on-leave', 'duplicates-in-initial-list')
   ASSUMPTIONS = ('eligible endpoints are read from the balancer\'s heap and idle set (observe_at: internal)',)
 
   def run_case(self, env, rng, idx, tier):
